@@ -32,6 +32,8 @@ type PropRun struct {
 	// Claim: which generated obligations belong to this property (nil = all); the others are decided by the
 	// check of the property that owns the contract clause and are dropped here.
 	Claim func(o *Obligation) bool
+	// PostDischarge: derive further (synthetic, already decided) obligations from the answers
+	PostDischarge func()
 }
 
 type ReplaySpec struct {
@@ -110,7 +112,7 @@ func loadBaseline(id string) (map[string]bool, map[string]bool) {
 }
 
 var contractKinds = map[string]bool{"post": true, "pre": true, "inv-init": true, "inv-pres": true, "dec": true, "schema": true, "attr": true,
-	"own": true, "rg": true, "rank": true, "cost": true, "crash": true, "frame": true, "reads": true, "lemma": true, "struct": true}
+	"own": true, "rg": true, "rank": true, "rankq": true, "cost": true, "crash": true, "frame": true, "reads": true, "lemma": true, "struct": true}
 
 func cmdCheck(args []string) int {
 	t0 := time.Now()
@@ -178,7 +180,11 @@ func cmdCheck(args []string) int {
 	if *writeBaseline {
 		tier.NoModels = true
 	}
+	tier.LiteSatFinal = func(o *Obligation) bool { return o.Kind == "rankq" }
 	discharge(run.Results, tier)
+	if run.PostDischarge != nil {
+		run.PostDischarge()
+	}
 	var cwg sync.WaitGroup
 	for _, r := range run.Results {
 		if len(r.Obls) > 0 && r.frame != nil {
